@@ -73,8 +73,8 @@ mutual
     | .setReg _ v => wsRv K v
     | .units _ => true
     | .actAll _ => true
-    | .setDefault => true
-    | .action _ ops => wsOperands K inR inMat ops
+    | .setDefault _ => true
+    | .action _ _ ops => wsOperands K inR inMat ops
     | .get v => wsRv K v
     | .wait => true
     | .timeAt _ => true
@@ -545,19 +545,23 @@ mutual
       rw [genStmt]; exact ci_one _ rfl _ _ _
     | .actAll k, inR, inLoop, inMat, h, a, _ => by
       cases k <;> (rw [genStmt]; exact CI.of_flat (by decide) _ _ _)
-    | .setDefault, inR, inLoop, inMat, h, a, _ => by
-      rw [genStmt]; exact CI.of_flat (by decide) _ _ _
-    | .action k ops, inR, inLoop, inMat, h, a, he => by
+    | .setDefault w, inR, inLoop, inMat, h, a, _ => by
+      cases w <;> (rw [genStmt]; exact CI.of_flat (by decide) _ _ _)
+    | .action k w ops, inR, inLoop, inMat, h, a, he => by
       simp only [wsStmt] at h
+      have hw : CI inR K (if w = true then [Instr.wait] else []) := by
+        cases w
+        · exact CI.nil
+        · exact ci_one _ rfl
       cases k
       · rw [genStmt]
-        exact ((CI.nil _ _ _).append (ci_one _ rfl _ _ _)).append
+        exact ((CI.nil _ _ _).append (hw _ _ _)).append
           (closed_operands _ ops inR inMat h a he inLoop _)
       · rw [genStmt]
-        exact ((ci_one _ rfl _ _ _).append (ci_one _ rfl _ _ _)).append
+        exact ((ci_one _ rfl _ _ _).append (hw _ _ _)).append
           (closed_operands _ ops inR inMat h a he inLoop _)
       · rw [genStmt]
-        exact ((ci_one _ rfl _ _ _).append (ci_one _ rfl _ _ _)).append
+        exact ((ci_one _ rfl _ _ _).append (hw _ _ _)).append
           (closed_operands _ ops inR inMat h a he inLoop _)
     | .get name, inR, inLoop, inMat, h, a, _ => by
       rw [genStmt]
